@@ -1037,6 +1037,14 @@ func (e *Env) trCall(n *ECall) Val {
 			e.fail("samefields: no field left to compare")
 		}
 		return Val{T: and(cs...), S: "Bool", Ty: types.Typ[types.Bool]}
+	case "allocbefore": // allocbefore("pat"): the allocation counter recorded at the last call matching pat is not ahead of the current one (for loop invariants that carry allocsince facts)
+		sx, ok := n.Args[0].(*EStr)
+		if !ok {
+			e.fail("allocbefore(\"pattern\")")
+		}
+		g := "$count:allocat:" + sx.V
+		u.regHeap(g, "Int")
+		return Val{T: app("<=", u.heapCur(e.cur, g), u.heapCur(e.cur, "$alloc")), S: "Bool", Ty: types.Typ[types.Bool]}
 	case "allocsince": // allocsince("pat", x): the object x refers to (a slice's backing array) was allocated after the last call matching pat returned
 		s, ok := n.Args[0].(*EStr)
 		if !ok || len(n.Args) != 2 {
@@ -1049,6 +1057,8 @@ func (e *Env) trCall(n *ECall) Val {
 		if a.S == "Slice" {
 			t = app("sl_base", a.T)
 		}
+		// (the recorded counter is an earlier reading of the monotone allocation counter)
+		u.assume(app("<=", u.heapCur(e.cur, g), u.heapCur(e.cur, "$alloc")))
 		return Val{T: app(">", t, u.heapCur(e.cur, g)), S: "Bool", Ty: types.Typ[types.Bool]}
 	case "alloc":
 		return Val{T: u.heapCur(e.cur, "$alloc"), S: "Int", Ty: intT}
